@@ -18,6 +18,13 @@ def seeded(U, rnd, quick):
     return jobs
 
 def check(run):
+    import vlib
+    # design level: rpmvercmp's cursor machine terminates and agrees with the recursive operator on every pair
+    L = 2 if run.tier == "quick" else 3
+    cfg = vlib.cfg_consts(RAlphabet={48, 49, 97, 66, 46, 95, 126, 94}, RMaxLen=L) + \
+        "SPECIFICATION RMSpec\nINVARIANT RMachineAgrees\nPROPERTY RTerminates\nCHECK_DEADLOCK FALSE\n"
+    vlib.tlc(run, "MC_Rpm", cfg, workers=8, timeout=2400, heap="8g")
+    run.extra["rpm_machine_max_string_length"] = L
     return refcheck.run_ref(run, "C11", ["rpm"], (1050, 4000), seeded_fn=seeded,
         rule="pairs of in-scope members within blocks of <=350 members of the TLC-generated universe + seeded character-level strings; each pair judged by Rpm.tla (rpmvercmp)",
         assumptions=["Rpm.tla transcribes rpmvercmp.c; audited only by rpm's published rpmvercmp.at table (ASSUMEs evaluated on every run); no executable rpm on this image",
